@@ -1265,6 +1265,16 @@ func onCloseParagraph(source []byte, originalBlock *Block) []*Block {
 	r := newInlineByteReader(source, originalBlock.inlineChildren, contentStart)
 	var result []*Block
 	for {
+		// The lines of a paragraph are stripped of initial spaces,
+		// so a definition that follows another one may be indented like any other block.
+		// (A line indented further stays paragraph text: on its own it would be an indented code block,
+		// and a root block must mean the same when it is parsed alone.)
+		for n := 0; n < codeBlockIndentLimit-1 && r.current() == ' '; n++ {
+			if !r.next() {
+				break
+			}
+		}
+
 		// At a minimum, a link reference definition must have a label and a destination.
 		label := parseLinkLabel(r)
 		if !label.span.IsValid() {
